@@ -3,11 +3,56 @@ SPEC = dict(
     props_file="Props/C08.v",
     harness=[
         dict(pkg="store/cache", test="TestVerifC08Cache", timeout=600, timeout_thorough=3000),
-        dict(pkg="store", test="TestVerifC08", timeout=900, timeout_thorough=3000),
+        dict(pkg="store", test="TestVerifC08", timeout=900, timeout_thorough=3000, race=True,
+             env=dict(GORACE="log_path=/verif/.build/c08_race halt_on_error=0")),
     ],
     translators=["locks"],
     allowed_axioms=[],
-    level_text="wip",
-    rule="wip",
-    trusted_base=["wip"],
+    level_text=("PARTIAL: machine-checked theorems (Coq, no axioms) cover the lock order, the reference-counting protocol and the sequential "
+                "specification; which interleavings the Go scheduler produces is explored by stress and directed concurrent scenarios, not "
+                "proved, and data-race freedom is the race detector's verdict. "
+                "(a) Deadlock freedom: the held->acquired graph of the mutexes of store, store/cache, store/file and share/eds analysed as one "
+                "unit (striped locks per family, the wait of accessor.close for its readers as a pseudo lock, calls through interfaces and "
+                "loader callbacks followed) is regenerated from the Go source by a translator on every run; Coq decides it acyclic together "
+                "with the edges of a reader holding a cache reference, and a generic theorem (Base/LockOrder.v extended by non-blocking shared "
+                "acquisition) gives: any number of goroutines, programs of any length that follow the graph never deadlock; the lock programs "
+                "of the store's operations are checked against the generated graph; the one excluded behaviour (a caller re-entering the store "
+                "while holding an accessor) is shown to produce a cycle and a reachable deadlocked state. "
+                "(b) Cache entries: an executable model of accessor_cache.go at lock granularity, two levels (entry protocol refs/done/isClosed "
+                "in an arbitrary environment; LRU + eviction goroutines + stripe locks + Get/GetOrLoad/Remove), level 2 proved to refine level "
+                "1; for EVERY interleaving of any number of goroutines: refs = number of holders >= 0, Close of the accessor at most once and "
+                "only with no reference out (the defaultCloseTimeout forced close is an explicit event, excluded and flagged), a holder always "
+                "reads an open accessor, no reference after isClosed, close(done) never panics, closers wait only while a reference is out, and "
+                "at quiescence every entry that left the LRU (removed, evicted, replaced) was closed exactly once (no leak). The model is "
+                "re-validated on every run against the real AccessorCache on ~360 scripted schedules cut at its blocking points. "
+                "(c) Store content: sequential specification (height -> absent | ODS | ODS+Q4), a linearizability checker proved sound and "
+                "complete and evaluated in Coq on histories recorded from the real store, and a theorem that operations whose file-system "
+                "effects run one by one under the height's stripe lock are linearizable for every schedule. "
+                "The concurrent harness (real Store + CachedStore, heights colliding on lock stripes and cache slots, cache sizes 0..2, race "
+                "detector, watchdog, /proc/self/fd) checks every byte read through held accessors, termination, descriptor release and the "
+                "content at rest."),
+    rule=("cache cases: 360 (quick) seed-derived schedules of 12-40 operations {GetOrLoad (10% failing loader), Get, Remove, release} for 3-5 "
+          "goroutine slots over heights {7, 263, 519 (one cache stripe), 8}, capacity 1-3; a Remove that must wait for readers runs in its own "
+          "goroutine until the last reference is released; every operation is emitted as its atomic model steps plus a snapshot of the real "
+          "cache (LRU order, refs/isClosed/Close-count per entry); non-trivial = the schedule has a blocked Remove and an eviction or a "
+          "replace-on-closed. "
+          "history cases: micro rounds of 3 goroutines x 2-3 operations {PutODSQ4, PutODS, GetByHeight, cached GetByHeight, HasByHeight, "
+          "HasQ4ByHash, RemoveODSQ4, RemoveQ4} over 2 heights with an optional sequential prologue, recent cache 0-2, cached store 1-2; the "
+          "recorded invocation/return order with results and the content at rest before/after is the case; a read that overlaps a put of "
+          "its height is recorded with an unconstrained result (put publishes to the cache before the files exist); non-trivial = two "
+          "operations of different goroutines on one height overlap. "
+          "stress (L3 only): directed rounds 'lazyq4' (4 readers holding accessors of a k=32 block + 2 arriving readers while PutODSQ4 adds / "
+          "RemoveODSQ4+PutODSQ4 re-creates its parity file), 'cachedremove' (cached GetByHeight against RemoveODSQ4), and stress rounds of 6-10 "
+          "goroutines x 10-19 operations over 3 heights (h, h+1024, h+2048) with up to 5 reads per accessor (sample, axis half, shares, stream, "
+          "row namespace data, roots/hash/size, every byte compared); shapes interleaved, cut at a 24 s budget."),
+    trusted_base=[
+        "translator /verif/translators/locks in group mode (group.go + main.go, go/ast+go/types, ~1500 lines): imports between the four packages type-checked for real, other imports faked; locks named by declaring type+field, slice elements per family ('[]'); lock-returning helpers, ordered lock slices bound by composite literals (multiLock) and function-typed parameters (cache loaders) resolved syntactically; calls through interfaces of the group resolved by method name (superset); values of third-party types (os.File, the LRU) are opaque: the LRU's internal mutex and the order in which hashicorp/golang-lru calls the eviction callback (outside its lock) are not analysed; receives from local channels, contexts and timers are not followed",
+        "the edges out of the pseudo lock wait:cache.accessor.done (what a reader may lock while it holds a cache reference: accessor.lock, the cache stripes, proofsCache, ODS and ODSQ4 locks) are written by hand in Store/ConcLocks.v; the hypothesis of C08_store_no_deadlock (every goroutine follows the graph, in particular: no call back into the store while holding an accessor) is an obligation on callers, not verified for the rest of celestia-node; RWMutex is treated as exclusive",
+        "model Store/CacheRef.v hand-written after store/cache/accessor_cache.go and hashicorp/golang-lru/v2 simplelru (Add of an existing key replaces without callback; Get moves to front; Contains/Peek do not); atomicity of each step = the critical section of accessor.lock / of the LRU's own mutex; tied by harness/store/cache/zz_verif_c08_test.go (real AccessorCache, counting mock accessors, in-package reads of refs/isClosed/LRU order) whose snapshots are recomputed by the model inside Coq on every run; the timeout event (defaultCloseTimeout = 1 min, a constant) is modelled but never exercised by the harness",
+        "interleavings INSIDE the real cache that the scripted schedules cannot force (two goroutines between lru.Get and addRef, etc.) are covered by the theorems over the model only, and by the concurrent stress",
+        "model Store/StoreSpec.v (content per height, operation results) hand-written after store/store.go; tied by the histories recorded from the real store; a read overlapping a put of the same height is unconstrained (design: put publishes the in-memory accessor before the files exist, store.go:140-148); blocks are fixed per height (a height never gets two different blocks)",
+        "Store/ConcAtomic.v models the mutators' disk effects (create ODS/Q4, link; unlink, delete) under an exclusive per-stripe lock; the caches in front of the files and the hash-stripe lock are not in that model; the file system is a map with atomic single effects",
+        "Go scheduling: which interleavings occur is explored by stress (seed-derived scripts, directed gates), not proved and not replayable step by step; a replay re-runs the round's scripts up to 300 times; data-race freedom = no report of the Go race detector during the run (harness built with -race); every put gets its own copy of the square with its roots computed first, as callers of Put do",
+        "the watchdog reports an operation that has not returned after 40 s (the cache force-closes after 60 s); file descriptors are counted in /proc/self/fd by path prefix of the store directory, first without and then after runtime.GC()",
+    ],
 )
